@@ -294,7 +294,8 @@ def verify_unit(unit):
         # the code was restructured under a proof hint: drop the hints that lost their anchor and try anyway.
         # Whatever still verifies is proved (hints only help); whatever fails is UNDECIDED, not a violation.
         rs, meta = build_unit(unit, lenient=True)
-        lenient = {"reason": str(e), "dropped": meta.get("dropped_hints", []), "dropped_rewrites": meta.get("dropped_rewrites", [])}
+        lenient = {"reason": str(e), "dropped": meta.get("dropped_hints", []) + ["%s: a dropped rewrite left an unspecified construct behind" % f for f in meta.get("dropped_shims", [])],
+                   "dropped_rewrites": meta.get("dropped_rewrites", [])}
     try:
         out = _verify_built(unit, rs, meta)
     except Inconclusive as e:
